@@ -242,6 +242,9 @@ def build(pid, P, R, tier, log_dir):
         obs.append(cargo_toml_ob(P, R, mp, log_dir, 2 if tier == "quick" else 3, pid))
     if pid == "C15":
         obs.append(add_rust_crate_ob(P, R, mp, log_dir))
+    if pid == "C16":
+        obs.append(test_harness_ob(P, R, mp, log_dir))
+        obs.append(run_tests_ob(P, R, mp, log_dir, 2 if tier == "quick" else 3))
     if pid == "C09":
         obs.append(check_formatted_ob(P, R, mp, log_dir))
         obs.append(format_files_ob(P, R, mp, log_dir, 2 if tier == "quick" else 3))
@@ -638,3 +641,190 @@ def add_rust_crate_ob(P, R, mp, log_dir):
         r["table"] = len(seen)
         return result_of("X-add_rust_crate", r, bad, n, len(outs), t0, lambda: cargo_native(log_dir, "C15"))
     return mp.XOb("X-add_rust_crate", statement, "", run)
+
+
+# ---- C16: the test harness ---------------------------------------------------------------------------------------------------------------------
+def field_accesses(text, struct_pat, index, ty_pat):
+    """(reads, writes) of field `index` of any local whose declared type matches `struct_pat`, per function, from the MIR text."""
+    reads, writes = {}, {}
+    cur, locs = None, {}
+    proj = re.compile(r"\(\(?\*?(_\d+)\)?\." + str(index) + r": " + ty_pat + r"\)")
+    for line in text.splitlines():
+        m = re.match(r"^fn (.+?)\((.*)$", line)
+        if m:
+            cur = m.group(1)
+            locs = {a.group(1): a.group(2) for a in re.finditer(r"(_\d+): ([^,)]+(?:<[^>]*>)?)", m.group(2))}
+            continue
+        m = re.match(r"^\s*let (?:mut )?(_\d+): (.*);$", line)
+        if m:
+            locs[m.group(1)] = m.group(2)
+            continue
+        if cur is None:
+            continue
+        for pm in proj.finditer(line):
+            if not re.search(struct_pat, locs.get(pm.group(1), "")):
+                continue
+            is_write = line.strip().startswith(pm.group(0) + " = ")
+            (writes if is_write else reads).setdefault(cur, []).append(line.strip()[:100])
+    return reads, writes
+
+
+def test_harness_ob(P, R, mp, log_dir):
+    statement = ("the generated test project actually contains the selected test: the test-mode flag and the selected test function that the runner sets on the code "
+                 "generator (set_test_mode / set_test_function) are READ by code generation - a value that is written and never read cannot influence the generated "
+                 "Rust, and then `cargo test` in the generated project runs nothing and every test is reported as passed")
+
+    def run():
+        t0 = time.time()
+        td = R.resolve("IrCodegen")
+        if td is None:
+            raise Inconclusive("IrCodegen not found in the sources")
+        names = [x[0] for x in td.variants[0][1]]
+        text = open(os.path.join(common.WORK_DIR, "mir", "incan.mir"), errors="replace").read()
+        r = {"id": "X-test_harness", "engine": "E2-X mirsmt", "statement": statement,
+             "bound": "frame condition over the MIR of every function of the crate: reads / writes of IrCodegen.test_mode and IrCodegen.test_function through any local of that type",
+             "encoding": "MIR field projections"}
+        bad, info = [], {}
+        for fld, ty in (("test_mode", r"bool"), ("test_function", r"std::option::Option<std::string::String>")):
+            if fld not in names:
+                bad.append(f"IrCodegen has no field {fld} any more")
+                continue
+            rd, wr = field_accesses(text, r"IrCodegen", names.index(fld), ty)
+            info[fld] = {"written_by": sorted(wr)[:4], "read_by": sorted(rd)[:4]}
+            if not wr:
+                bad.append(f"{fld} is never written (pattern out of date?)")
+            elif not rd:
+                bad.append(f"IrCodegen.{fld} is written by {sorted(x.split('::')[-1] for x in wr)} and read by no function: it cannot influence the generated code")
+        r["accesses"] = info
+        r["wall_s"] = round(time.time() - t0, 2)
+        r["vacuity_ok"] = bool(info)
+        if not bad:
+            r.update(status="held", solver="both fields are read by code generation", paths=len(info))
+            return r
+        why = "; ".join(bad)
+        ok, text_ = testrun_native(log_dir)
+        r["native"] = text_[:600]
+        kf = [x for x in common.load_known_findings().get("findings", []) if x.get("obligation") == "X-test_harness"]
+        if ok and kf:
+            r.update(status="known-finding", finding=f"X-test_harness: {kf[0]['what'][:240]}", witness=text_[:300], paths=len(info))
+        elif ok:
+            os.makedirs(os.path.join(common.REPLAYS_DIR, "MIRX"), exist_ok=True)
+            rp = os.path.join(common.REPLAYS_DIR, "MIRX", "X-test_harness.replay")
+            open(rp, "w").write(f"mirx testrun\n# {why[:400]}\n# native: {text_[:400]}\n")
+            r.update(status="violated", replay=rp, counterexample={"path": why[:400], "native": text_[:400]}, paths=len(info))
+        else:
+            r.update(status="inconclusive", reason=f"{why[:300]} - but natively: {text_[:200]}", paths=len(info))
+        return r
+    return mp.XOb("X-test_harness", statement, "", run)
+
+
+def testrun_native(log_dir):
+    """`incan test` (the public run_tests) on a file with one passing and one failing test -> (broken?, text)."""
+    import kani
+    binp = kani.build_replay("dev", True, log_dir)
+    rc, out, _, to = common.run([binp, "testrun", os.path.join(common.WORK_DIR, "testrun")], timeout=900)
+    lines = [l for l in out.splitlines() if l.startswith("OK ") or l.startswith("BROKEN ")]
+    if to or not lines:
+        raise Inconclusive(f"replay testrun failed (rc={rc}): {out[-300:]}")
+    bad = [l for l in lines if l.startswith("BROKEN")]
+    return bool(bad), " | ".join(bad) or "a failing test is reported as failed, a passing one as passed"
+
+
+def run_tests_ob(P, R, mp, log_dir, bound):
+    statement = ("`incan test`, the verdict loop of run_tests (from the collected tests to the exit status): a test marked @skip is never run; every other test is run "
+                 "exactly once, in order, unless --exitfirst stopped the run after a failure; @xfail inverts the verdict (a passing xfail test is a failure, a failing one is "
+                 "not); the exit status is a failure exactly when some executed test failed without @xfail or passed with it")
+
+    def run():
+        t0 = time.time()
+        from symex import Adt
+        f = [v for k, v in P.fns.items() if k == "run_tests" or k.endswith("::run_tests")]
+        if len(f) != 1:
+            raise Inconclusive("run_tests not found (or ambiguous) in the MIR dump")
+        f = f[0]
+        # entry = the block that creates the `results` vector (the loop over the filtered tests follows)
+        entry = next((bb for bb, blk in f.blocks.items() if "Vec::<(TestInfo, TestResult)>::new()" in (blk.term or "")), None)
+        if entry is None:
+            raise Inconclusive("the verdict loop of run_tests was not found (no `results` vector)")
+        src_local = None
+        for nm, ty in f.locals.items():
+            if ty.replace(" ", "") in ("std::vec::Vec<cli::test_runner::TestInfo>", "std::vec::Vec<TestInfo>"):
+                src_local = src_local or nm
+        ex = slice_executor(P, R, bound, (r"run_single_test$", r"print_test_result$", r"^style", r"discover_", r"Instant::", r"Duration::", r"io::_print", r"fmt::"))
+        ex.model_vecs = True
+
+        def vec_into_iter(ex_, callee, args, st):
+            v = ex_.deref(args[0], st)
+            if isinstance(v, Adt) and v.ty == "Vec":
+                return [("return", mirx.SeqIter(v, 0, len(v.fields)), None, st)]
+            if isinstance(v, symex.Sym):
+                return [("return", mirx.SeqIter(v, 0, n), None, st2) for n, st2 in mirx.seq_lengths(ex_, v, st)]
+            return mirx.st_into_iter(ex_, callee, args, st)
+        first = {r"^<(std::vec::)?Vec<.*> as (std::iter::)?IntoIterator>::into_iter$": vec_into_iter,
+                 r"^<(std::vec::)?(vec::)?IntoIter<.*> as (std::iter::)?Iterator>::next$": mirx.st_iter_next}
+        ex.state_intrinsics = {**first, **dict(mirx.STATE_INTRINSICS)}
+        tests = ex.sym_value("std::vec::Vec<cli::test_runner::TestInfo>", "tests")
+        args = [Opaque("path"), ex.enc.bool_var("verbose"), ex.enc.bool_var("stop_on_fail"), ex.enc.bool_var("include_slow"), Opaque("filter"),
+                ex.enc.bool_var("use_color"), ex.enc.bool_var("fail_on_empty")]
+        # the collected-tests local and the start time are live at the entry: arbitrary values
+        live = {nm: tests for nm, ty in f.locals.items() if "Vec<" in ty and "TestInfo>" in ty and "(" not in ty}
+        live.update({nm: Opaque("start") for nm, ty in f.locals.items() if ty.strip().endswith("Instant")})
+        outs = ex.run_slice(f, entry, live, args)
+        r = {"id": "X-run_tests", "engine": "E2-X mirsmt", "statement": statement,
+             "bound": f"0..={bound} collected tests with 0..={bound} markers each (every marker kind), every outcome of run_single_test (uninterpreted), --exitfirst symbolic; "
+                      "discovery, filtering and printing are outside (the slice starts where the filtered list exists)",
+             "functions_encoded": [n + " (MIR)" for n in ex.encoded]}
+        mk = [v[0] for v in R.resolve("cli::test_runner::TestMarker").variants]
+        rs = [v[0] for v in R.resolve("cli::test_runner::TestResult").variants]
+        SKIP, XFAIL, PASSED, FAILED = mk.index("Skip"), mk.index("XFail"), rs.index("Passed"), rs.index("Failed")
+        i_markers = [x[0] for x in R.resolve("cli::test_runner::TestInfo").variants[0][1]].index("markers")
+        prefetch(mp, ex, [o.pc for o in outs])
+        bad, n = [], 0
+        for o in outs:
+            if not feasible(mp, ex, o.pc):
+                continue
+            n += 1
+            if o.kind != "return":
+                bad.append(f"{o.kind}: {o.info}")
+                continue
+            facts = o.state.facts
+            nt = facts.get("len:tests")
+            if nt is None:
+                bad.append("the collected tests are never traversed")
+                continue
+            runs = []
+            for e in o.state.events:
+                if e[0].endswith("run_single_test"):
+                    m = re.search(r"tests\.e(\d+)", e[1][0])
+                    runs.append((int(m.group(1)) if m else -1, facts.get(e[2] + "!tag")))
+            stop = "stop_on_fail" in o.pc
+            failed_any, stopped_at = False, None
+            order_ok = [k for k, _ in runs] == sorted(k for k, _ in runs) and len({k for k, _ in runs}) == len(runs)
+            if not order_ok:
+                bad.append(f"tests are run out of order or more than once: {[k for k, _ in runs]}")
+            for k in range(nt):
+                nm = facts.get(f"len:tests.e{k}.{i_markers}")
+                tags = [facts.get(f"tests.e{k}.{i_markers}.e{j}!tag") for j in range(nm or 0)]
+                has_skip = any(t == ("eq", SKIP) for t in tags)
+                no_skip = nm is not None and all(t is not None and t != ("eq", SKIP) and (t[0] == "eq" or SKIP in t[1]) for t in tags)
+                is_xfail = any(t == ("eq", XFAIL) for t in tags)
+                res = next((rt for kk, rt in runs if kk == k), None)
+                was_run = any(kk == k for kk, _ in runs)
+                if stopped_at is not None:
+                    if was_run:
+                        bad.append(f"--exitfirst: test #{k} is run after test #{stopped_at} failed")
+                    continue
+                if has_skip and was_run:
+                    bad.append(f"test #{k} carries @skip and is run")
+                if no_skip and not was_run:
+                    bad.append(f"test #{k} carries no @skip and is not run")
+                if was_run and res and res[0] == "eq":
+                    verdict_fail = (res[1] == FAILED and not is_xfail) or (res[1] == PASSED and is_xfail)
+                    failed_any = failed_any or verdict_fail
+                    if stop and res[1] == FAILED and not is_xfail:
+                        stopped_at = k
+            val = mirx.show(o.value, ex, o.state)
+            if val.startswith("Result::Ok(") == failed_any and all(rt and rt[0] == "eq" and rt[1] in (PASSED, FAILED) for _, rt in runs):
+                bad.append(f"exit status {val[:24]} although failed={failed_any} (runs {[(k, rs[rt[1]]) for k, rt in runs]})")
+        return result_of("X-run_tests", r, bad, n, len(outs), t0, None)
+    return mp.XOb("X-run_tests", statement, "", run)
